@@ -65,22 +65,55 @@ func c07AckAfterFlush(e *Env) {
 		return ok && ir.IsCallTo(&c.Call, "(*bufio.Writer).Flush")
 	}
 	n := 0
-	bad, _ := ir.Bypass(nil, fn.Blocks[0], ir.PathQuery{
-		Stop: isFlush,
-		Bad: func(in ssa.Instruction) bool {
-			rt, ok := in.(*ssa.Return)
-			if !ok {
-				return false
-			}
-			n++
-			for _, v := range RetVals(rt, 0) {
-				if e.mayBeNil(rt, v) {
-					return true
-				}
-			}
+	// "returns a possibly-nil error only after Flush", through helpers: a return of
+	// the result of a helper that itself has this property is fine
+	memo := map[*ssa.Function]bool{}
+	var firstBad ssa.Instruction
+	var nilOnlyAfterFlush func(g *ssa.Function, depth int) bool
+	nilOnlyAfterFlush = func(g *ssa.Function, depth int) bool {
+		if v, ok := memo[g]; ok {
+			return v
+		}
+		memo[g] = false
+		if g == nil || g.Blocks == nil || depth > 4 {
 			return false
-		},
-	})
+		}
+		last := g.Signature.Results().Len() - 1
+		if last < 0 {
+			return false
+		}
+		b, _ := ir.Bypass(nil, g.Blocks[0], ir.PathQuery{
+			Stop: isFlush,
+			Bad: func(in ssa.Instruction) bool {
+				rt, ok := in.(*ssa.Return)
+				if !ok {
+					return false
+				}
+				n++
+				for _, v := range RetVals(rt, last) {
+					if c, isC := ir.Resolve(v).(*ssa.Call); isC {
+						if h := c.Call.StaticCallee(); h != nil && e.P.Funcs[h] && nilOnlyAfterFlush(h, depth+1) {
+							continue
+						}
+					}
+					if e.mayBeNil(rt, v) {
+						return true
+					}
+				}
+				return false
+			},
+		})
+		if b != nil && firstBad == nil {
+			firstBad = b
+		}
+		memo[g] = b == nil
+		return memo[g]
+	}
+	okAck := nilOnlyAfterFlush(fn, 0)
+	bad := firstBad
+	if okAck {
+		bad = nil
+	}
 	var facts []string
 	if bad != nil {
 		facts = append(facts, "possibly-nil return at "+e.InstrPos(bad)+" reachable without Flush")
@@ -89,22 +122,27 @@ func c07AckAfterFlush(e *Env) {
 		"a status write can be acknowledged while the bytes are still in the user-space buffer: a crash after the acknowledgement loses the status", facts...)
 	// and the value of the final return is the Flush result (an error from Flush is not swallowed)
 	okRes := false
-	for _, b := range fn.Blocks {
-		for _, in := range b.Instrs {
-			if st, ok := in.(*ssa.Store); ok {
-				if c, ok := st.Val.(*ssa.Call); ok && ir.IsCallTo(&c.Call, "(*bufio.Writer).Flush") {
-					okRes = true
+	for _, g := range e.staticClosure(fn) {
+		for _, b := range g.Blocks {
+			for _, in := range b.Instrs {
+				if st, ok := in.(*ssa.Store); ok {
+					if c, ok := st.Val.(*ssa.Call); ok && ir.IsCallTo(&c.Call, "(*bufio.Writer).Flush") {
+						okRes = true
+					}
 				}
-			}
-			if rt, ok := in.(*ssa.Return); ok {
-				if c, ok := rt.Results[0].(*ssa.Call); ok && ir.IsCallTo(&c.Call, "(*bufio.Writer).Flush") {
-					okRes = true
+				if rt, ok := in.(*ssa.Return); ok {
+					if len(rt.Results) == 0 {
+						continue
+					}
+					if c, ok := rt.Results[len(rt.Results)-1].(*ssa.Call); ok && ir.IsCallTo(&c.Call, "(*bufio.Writer).Flush") {
+						okRes = true
+					}
 				}
-			}
-			if i, ok := in.(*ssa.If); ok {
-				n := ir.Normalize(ir.Lit{Cond: i.Cond, Pol: true})
-				if n.Kind == "cmp" && calleeIs(n.X, "(*bufio.Writer).Flush") {
-					okRes = true
+				if i, ok := in.(*ssa.If); ok {
+					n := ir.Normalize(ir.Lit{Cond: i.Cond, Pol: true})
+					if n.Kind == "cmp" && calleeIs(n.X, "(*bufio.Writer).Flush") {
+						okRes = true
+					}
 				}
 			}
 		}
@@ -156,24 +194,95 @@ func c07CompactOrder(e *Env) {
 	// the copy's target name ends with the extension the glob patterns select
 	okName := false
 	for _, ev := range e.C.FieldStores(fn, "target") {
-		tr := &ir.Tracer{C: e.C, Through: ir.StringThrough}
-		for _, l := range tr.Trace(ev.Val) {
-			if l.Kind == "const" {
-				if s, ok := ir.ConstString(l.V); ok && strings.HasSuffix(s, ".dat") {
-					okName = true
-				}
-			}
-		}
-		// a suffix appended after the .dat name (e.g. ".tmp") would make the tracer see another constant last;
-		// require that the value is NOT a concatenation whose right operand is a non-.dat constant
-		if bo, ok := ir.Resolve(ev.Val).(*ssa.BinOp); ok && bo.Op == token.ADD {
-			if s, ok := ir.ConstString(bo.Y); ok && !strings.HasSuffix(s, ".dat") {
-				okName = false
-			}
+		if suf, ok := strSuffix(e, ev.Val, 0); ok && strings.HasSuffix(suf, ".dat") {
+			okName = true
 		}
 	}
 	r.Check(okName, "Compact: the copy is written under a *.dat name", e.Pos(fn.Pos()),
 		"the compacted copy is written under a name the history queries' *.dat patterns do not match")
+}
+
+// strSuffix computes the constant text a string expression is known to end
+// with: the right end of concatenations, the last element of filepath.Join, the
+// literal tail of a Sprintf format, through repository helpers whose every
+// return agrees.
+func strSuffix(e *Env, v ssa.Value, depth int) (string, bool) {
+	if depth > 8 || v == nil {
+		return "", false
+	}
+	v = ir.Resolve(v)
+	if s, ok := ir.ConstString(v); ok {
+		return s, s != ""
+	}
+	switch x := v.(type) {
+	case *ssa.BinOp:
+		if x.Op == token.ADD {
+			if s, ok := strSuffix(e, x.Y, depth+1); ok {
+				return s, true
+			}
+		}
+	case *ssa.Phi:
+		var res string
+		for i, ed := range x.Edges {
+			s, ok := strSuffix(e, ed, depth+1)
+			if !ok || (i > 0 && s != res) {
+				return "", false
+			}
+			res = s
+		}
+		return res, res != ""
+	case *ssa.Call:
+		name := ir.CalleeName(&x.Call)
+		switch name {
+		case "path/filepath.Join", "path.Join":
+			els := sliceElems(x.Call.Args[0])
+			if len(els) > 0 {
+				return strSuffix(e, els[len(els)-1], depth+1)
+			}
+		case "fmt.Sprintf":
+			f, ok := ir.ConstString(x.Call.Args[0])
+			if !ok {
+				return "", false
+			}
+			if i := strings.LastIndex(f, "%"); i >= 0 && i+2 <= len(f) {
+				if tail := f[i+2:]; tail != "" {
+					return tail, true
+				}
+				// the format ends with a verb: the last argument's suffix
+				var els []ssa.Value
+				for _, a := range x.Call.Args[1:] {
+					els = append(els, sliceElems(a)...)
+				}
+				if len(els) > 0 {
+					last := els[len(els)-1]
+					if mi, isMI := last.(*ssa.MakeInterface); isMI {
+						last = mi.X
+					}
+					return strSuffix(e, last, depth+1)
+				}
+				return "", false
+			}
+			return f, f != ""
+		}
+		if sc := x.Call.StaticCallee(); sc != nil && e.P.Funcs[sc] {
+			var res string
+			n := 0
+			for _, b := range sc.Blocks {
+				for _, in := range b.Instrs {
+					if rt, ok := in.(*ssa.Return); ok && len(rt.Results) > 0 {
+						s, ok := strSuffix(e, rt.Results[0], depth+1)
+						if !ok || (n > 0 && s != res) {
+							return "", false
+						}
+						res = s
+						n++
+					}
+				}
+			}
+			return res, n > 0 && res != ""
+		}
+	}
+	return "", false
 }
 
 func c07AppendOnly(e *Env) {
